@@ -50,8 +50,6 @@ func (r *Router) parseParamRoute(route *Route) (first string) {
 		route.spath = path
 	}
 
-	// "." -> "\."
-	path = quotePointChar(path)
 	argPos := strings.IndexByte(path, '{')
 	optPos := strings.IndexByte(path, '[')
 	minPos := argPos
@@ -74,6 +72,8 @@ func (r *Router) parseParamRoute(route *Route) (first string) {
 		}
 	}
 
+	// "." -> "\.". Notice: must after collect the start and first node string.
+	path = quotePointChar(path)
 	// has optional char. /blog[/{id}]  -> /blog(?:/{id})
 	if optPos > 0 {
 		path = checkAndParseOptional(path)
